@@ -5,11 +5,12 @@ Prints one line per check: DETECTED (VIOLATION line) / missed. /repo is restored
 import json, os, subprocess, sys
 V = os.path.dirname(os.path.dirname(os.path.abspath(__file__)))
 patch = os.path.abspath(sys.argv[1])
+REPO = os.environ.get("VERIF_REPO", "/repo")      # a scratch copy of the repository may be used instead of /repo
 props = sys.argv[2:] or [c["property_id"] for c in json.load(open(os.path.join(V, "MANIFEST.json")))["checks"]]
-st = subprocess.run(["git", "-C", "/repo", "status", "--porcelain"], capture_output=True, text=True).stdout.strip()
+st = subprocess.run(["git", "-C", REPO, "status", "--porcelain"], capture_output=True, text=True).stdout.strip()
 if st:
     sys.exit("refusing: /repo is not clean:\n" + st)
-r = subprocess.run(["git", "-C", "/repo", "apply", patch], capture_output=True, text=True)
+r = subprocess.run(["git", "-C", REPO, "apply", patch], capture_output=True, text=True)
 if r.returncode != 0:
     sys.exit("patch does not apply: " + r.stderr)
 res = {}
@@ -20,9 +21,9 @@ try:
         res[p] = lines
         print("%s  %s  %s" % (p, "DETECTED" if lines else "missed  ", "; ".join(l.split("replay=")[-1] for l in lines)[:200]), flush=True)
 finally:
-    subprocess.run(["git", "-C", "/repo", "apply", "-R", patch], check=False)
-    subprocess.run(["git", "-C", "/repo", "checkout", "--", "."], check=False)
-    st = subprocess.run(["git", "-C", "/repo", "status", "--porcelain"], capture_output=True, text=True).stdout.strip()
+    subprocess.run(["git", "-C", REPO, "apply", "-R", patch], check=False)
+    subprocess.run(["git", "-C", REPO, "checkout", "--", "."], check=False)
+    st = subprocess.run(["git", "-C", REPO, "status", "--porcelain"], capture_output=True, text=True).stdout.strip()
     print("repo restored:", "clean" if not st else "NOT CLEAN: " + st)
     # bring the tools and the regenerated facts back in sync with the restored tree
     sys.path.insert(0, V)
